@@ -219,6 +219,11 @@ def step (line : String) : String :=
       let nm := (optStr j "name").getD []
       let emit := (j.getObjValAs? Bool "emit").toOption.getD true
       (resJson (ArgAttr.param2argparse nm pr emit) addArgToJson).compress
+    | .ok "argparse_params" =>
+      let ir := match j.getObjVal? "ir" with | .ok i => irOfJson i | _ => {}
+      let emit := (j.getObjValAs? Bool "emit").toOption.getD true
+      (resJson (ArgAttr.argparseParams emit ir.params false) fun qs =>
+        Json.arr (qs.map fun (k, p) => Json.arr #[Json.str (String.ofList k), paramToJson p]).toArray).compress
     | .ok "parse_out_param" =>
       let a := addArgOfJson ((j.getObjVal? "call").toOption.getD Json.null)
       let emit := (j.getObjValAs? Bool "emit").toOption.getD false
